@@ -357,6 +357,14 @@ type c15release struct {
 	callStamp int64
 }
 
+// c15irel: GenerateUnique* released a candidate it had marked because the
+// caller's check reported the id as taken (not a harness-level Release).
+type c15irel struct {
+	kind, id string
+	inst     *c15inst
+	stamp    int64
+}
+
 type c15op struct {
 	typ  string // gen | rel | uniq | sleep
 	kind string
@@ -530,6 +538,7 @@ func c15RunIDGen(w *simrt.World, tier string) {
 	rd.force = -1
 
 	var mu sync.Mutex
+	var irels []c15irel
 	exhausted, failed, overlap := 0, 0, false
 	type span struct {
 		kind      string
@@ -588,7 +597,14 @@ func c15RunIDGen(w *simrt.World, tier string) {
 							return false, errors.New("c15: repository lookup failed")
 						}
 						w.Yield("c15.check")
-						return taken[o.kind+"/"+x], nil
+						if taken[o.kind+"/"+x] {
+							// the manager will now release the candidate it has just marked
+							mu.Lock()
+							irels = append(irels, c15irel{kind: o.kind, id: x, inst: p.inst, stamp: w.Stamp()})
+							mu.Unlock()
+							return true, nil
+						}
+						return false, nil
 					})
 				} else {
 					id, err = p.inst.gen(o.kind)
@@ -672,11 +688,39 @@ func c15RunIDGen(w *simrt.World, tier string) {
 					"%s was handed out by %s (task %s) at %v although its marker pre-existed (written at %v, lifetime %v) and was never released\n%s",
 					k, g2.inst.name, g2.task, g2.retTime, g1.callTime, g1.ttl, hist)
 			} else {
-				rel := "cross-node"
-				if g1.inst == g2.inst {
-					rel = "same-instance"
-				} else if g1.inst.node == g2.inst.node {
-					rel = "cross-instance-same-node"
+				relOfInst := func(a, b *c15inst) string {
+					if a == b {
+						return "same-instance"
+					} else if a.node == b.node {
+						return "cross-instance-same-node"
+					}
+					return "cross-node"
+				}
+				relOf := func(a, b *c15gen) string { return relOfInst(a.inst, b.inst) }
+				rel := relOf(g1, g2)
+				if rel == "same-instance" {
+					// Root cause attribution: if g1 itself ran concurrently with a successful generation of the
+					// same id on ANOTHER instance, both marked the id and that other holder's Release removed
+					// g1's marker; the pair g1/g2 is the consequence of that cross-instance race, so it is
+					// reported under the class of the race (the violation itself is unchanged).
+					for _, g0 := range l {
+						if g0 != g1 && g0 != g2 && !g0.pre && g0.inst != g1.inst && g0.callStamp < g1.retStamp && g1.callStamp < g0.retStamp {
+							rel = relOf(g0, g1)
+							hist = "(g1 overlapped a generation of the same id on " + g0.inst.name + "; its Release freed the shared marker)\n" + hist
+							break
+						}
+					}
+					// ... or another instance's GenerateUnique* marked the same candidate concurrently with g1
+					// and then released "its" marker (which is also g1's) because the check said taken.
+					if rel == "same-instance" {
+						for _, r := range irels {
+							if r.kind+"/"+r.id == k && r.inst != g1.inst && r.stamp > g1.callStamp && r.stamp < g2.retStamp {
+								rel = relOfInst(r.inst, g1.inst)
+								hist = "(GenerateUnique on " + r.inst.name + " marked the same candidate concurrently with g1 and released the shared marker at stamp " + strconv.FormatInt(r.stamp, 10) + ")\n" + hist
+								break
+							}
+						}
+					}
 				}
 				w.Violationf("C15:duplicate:"+flavour+":"+rel,
 					"%s returned to %s (task %s, stamps %d-%d) and again to %s (task %s, stamps %d-%d) with no Release in between and marker lifetime %v not elapsed\n%s",
